@@ -37,7 +37,7 @@ def settle(chk, stream, broken, dis, crash, ofail, describe=lambda r: r["ops"]):
         chk.violation("crash:" + stream, "implementation aborted (sanitizer report, signal or time-out)",
                       {"stream": stream, "ops": describe(r), "exit": r["rc_c"], "stderr": r.get("err_c", "")[-2500:]}, True)
     for r, o in ofail[:4]:
-        chk.violation("oracle:" + stream + ":" + o.split(":")[0], "property oracle failed on the implementation: " + o,
+        chk.violation("oracle:" + stream + ":" + o.split(": ")[0], "property oracle failed on the implementation: " + o,
                       {"stream": stream, "ops": describe(r), "observed": r["c"], "model": r.get("m")}, True)
     have_input = bool(crash or ofail)
     for r, d in dis[:4]:
